@@ -110,7 +110,7 @@ func Inputs(t *rapid.T, allowFns, allowTime, allowSpecialFloats bool) map[string
 		case 16, 17:
 			if allowFns {
 				if rapid.Bool().Draw(t, "fnKind") {
-					return &lang.Val{T: "hostfn", Name: []string{"hf_len", "hf_first", "hf_err", "hf_args"}[rapid.IntRange(0, 3).Draw(t, "hf")]}
+					return &lang.Val{T: "hostfn", Name: []string{"hf_len", "hf_first", "hf_err", "hf_args", "hf_pack", "hf_pack"}[rapid.IntRange(0, 5).Draw(t, "hf")]}
 				}
 				return &lang.Val{T: "builtin", Name: []string{"len", "string", "type_name", "copy"}[rapid.IntRange(0, 3).Draw(t, "bf")]}
 			}
